@@ -119,9 +119,12 @@ def main():
                 fprops = f.get("props") or unit["properties"]
                 if prop in fprops or f.get("in_prelude"):
                     mine.append(f)
+            # function-level obligations; a function counts against THIS property only if one of its
+            # failed clauses is attributed to this property (clauses carry property tags)
             n_fn = r.get("verified", 0) + r.get("errors", 0)
             obligations += n_fn
-            discharged += r.get("verified", 0)
+            failed_fns_mine = set(f["fn"] for f in mine)
+            discharged += n_fn - len(failed_fns_mine) if not r["undecided"] else r.get("verified", 0)
             solver_ms += r.get("smt_ms") or 0
             functions += [dict(f, unit=uname, engine="verus") for f in r.get("functions", [])]
             clause_samples += ["%s: %s %s [%s]: %s" % (uname, c["fn"], c["kind"], c["label"], " ".join(c["text"].split())[:160]) for c in r.get("clause_list", [])]
